@@ -798,6 +798,9 @@ func extraCommand(cmd string, args []string) bool {
 	case "ethtable":
 		runEthTable(args)
 		return true
+	case "bincfg":
+		runBinCfg(args)
+		return true
 	case "binconn":
 		runBinConn(args)
 		return true
